@@ -589,6 +589,10 @@ def run(res, tier, only_case=None):
             s = Scn(cs["name"], bytes.fromhex(cs["A"]) if cs.get("A") else None, bytes.fromhex(cs["B"]),
                     bytes.fromhex(cs["T0"]) if cs.get("T0") is not None else None, "replay")
             todo = [(s, cs["limit"])]
+            if cs.get("boundary_style"):
+                b.srv.boundary_style = cs["boundary_style"]
+                cp = cs.get("cut_at_parts", False)
+                b.srv.cut_at_parts = tuple(cp) if isinstance(cp, list) else cp
         else:
             scs = scenarios(rng, tier, b.wd)
             todo = []
@@ -639,19 +643,20 @@ def run(res, tier, only_case=None):
                     if clen:
                         T0[B.hdr_len + off] ^= 0xff
                 T0 = bytes(T0)
-                for style, cut in (("hex", True), ("rfc", False), ("rfc", True)):
+                for style, cut in (("hex", True), ("rfc", False), ("rfc", True), ("hex", ("hdr", 1)), ("hex", ("hdr", 2)), ("rfc", ("hdr", 3)), ("hex", ("hdr", 4)), ("hex", ("hdr", 0))):
                     b.srv.boundary_style, b.srv.cut_at_parts = style, cut
                     try:
                         rc, out, log, err = b.run_tool(None, s.B, T0, 1000)
                     finally:
                         b.srv.boundary_style, b.srv.cut_at_parts = "hex", False
                     res.evaluations += 1
-                    key = "c04:transport:%s:%s:%s" % (s.name, style, "cut" if cut else "whole")
+                    cutname = ("hdr%d" % cut[1]) if isinstance(cut, tuple) else ("cut" if cut else "whole")
+                    key = "c04:transport:%s:%s:%s" % (s.name, style, cutname)
                     res.nontrivial.add(key)
-                    res.count("transport:%s:%s" % (style, "cut" if cut else "whole"))
+                    res.count("transport:%s:%s" % (style, cutname))
                     if rc != 0 or out != s.B:
                         res.violation("oracle", key, "multipart answer (%s boundary%s): zckdl exit %d, target %s B"
-                                      % (style, ", pieces ending at part ends" if cut else "", rc, "==" if out == s.B else "!="),
+                                      % (style, (", pieces ending %d bytes into the blank line of each part header" % cut[1]) if isinstance(cut, tuple) else ", pieces ending at part ends" if cut else "", rc, "==" if out == s.B else "!="),
                                       {"name": s.name, "B": s.B.hex(), "A": None, "T0": T0.hex(), "limit": 1000, "boundary_style": style, "cut_at_parts": cut})
         if only_case is None:   # regression probe for the fixed empty-range spin (invalid B: must end with an error, not hang)
             probe_invalid_b(res, b, rng)
